@@ -38,7 +38,7 @@ let go skip reset threads b seed toks =
 
 let () = each_line (fun line ->
   match split_ws line with
-  | "CTL" :: threads :: b :: seed :: toks -> go false true (int_of_string threads) (int_of_string b) (int_of_string seed) toks
+  | ("CTL" | "CTLC") :: threads :: b :: seed :: toks ->   (* CTLC: the same filter behind lm::ContextFilter; same specification *) go false true (int_of_string threads) (int_of_string b) (int_of_string seed) toks
   | "CTLX" :: sk :: rs :: threads :: b :: seed :: toks -> go (sk = "1") (rs = "1") (int_of_string threads) (int_of_string b) (int_of_string seed) toks
   | "SEQ" :: toks -> "ok" ^ show_events (sequential (List.map parse_tok toks))
   | _ -> "unsupported-case")
